@@ -228,3 +228,7 @@ package x509
 //@ loop 1 step-assert [one-object-collected-per-certificate] len(next(v)) == len(head(v)) + 1
 //@ loop 1 step-assert [the-object-just-decoded-is-collected-in-order] next(v)[len(head(v))] == as(um.val, *certificate)
 //@ at pc assert [every-collected-object-is-converted-in-order] pc.in == v[i]
+
+// RFC 6962 section 3.3: opaque SerializedSCT<1..2^16-1>; SerializedSCT sct_list <1..2^16-1>.
+//@ layout SerializedSCT C04: Val opaque<1..65535>
+//@ layout SignedCertificateTimestampList C04: SCTList vector<1..65535> of SerializedSCT
